@@ -207,6 +207,19 @@ def search_rules(prog, ctx, loc, closure, RB='C09.b', RC='C09.c'):
         ls, _ = closedness_sites(prog, loc, arrname)
         for st in ls:
             verdicts.append((loc, st))
+    # a search phase written with a standard algorithm: `upper_bound(...) - begin - 1` is the last index with X[k] <= x (left-closed
+    # segments, like the bisection); `lower_bound(...) - begin - 1` is the last index with X[k] < x (right-closed)
+    for q in sorted(closure) + [loc.q]:
+        for fn in prog.fns(q):
+            for c_ in calls(fn):
+                qn = (c_.get('callee') or {}).get('q')
+                if qn in ('std::lower_bound', 'std::upper_bound') and len(c_.get('args', [])) >= 3:
+                    on_x = any(n_.get('k') in ('Member', 'Ref') and n_.get('name') == (arrname or 'x_values') for a_ in c_['args'][:2] for n_ in walk_expr(a_))
+                    key_is_x = strip_casts(c_['args'][2]).get('k') == 'Ref' and strip_casts(c_['args'][2]).get('rk') == 'param'
+                    if on_x and key_is_x:
+                        stmt_ = [s_ for s_ in walk_stmts(fn.body) if any(x_ is c_ for e_ in stmt_exprs(s_) for x_ in walk_expr(e_))]
+                        verdicts.append((fn, {'closed': 'left' if qn.endswith('upper_bound') else 'right', 'op': qn.split('::')[-1], 'm': 'k',
+                                              'kind': 'algorithm', 'stmt': stmt_[0] if stmt_ else {'l': fn.line}, 'arr': arrname}))
     verdicts = [(fn, st) for fn, st in verdicts if st['closed'] != 'neutral']
     kinds = set(st['closed'] for fn, st in verdicts if st['closed'])
     und = [(fn, st) for fn, st in verdicts if st['closed'] is None]
